@@ -1,24 +1,26 @@
 (* C07 — Price conversion applies the documented rate, and only that rate.
    Statements only; proofs in TkProofs.Price_proofs.
    Model: TkModel.Price (price_lookup.rs make_ctx / convert_prices / metadata, pricedb_parser.rs
-   pricedb_from_str, price_entry.rs Ord/Eq).  Specification: TkSpec.Price_spec, stated on the price
-   FILE as written (any order of lines):  RateAt lk f target c t e  =  e is the line of f with
-   base c, eq target, applicable instant (txn-time: <= t, given-time: < given, last-price: any)
-   and the maximal instant.
+   pricedb_from_str, price_entry.rs Ord/Eq) — as of /repo c696385, i.e. after the fixes of
+   F12 (a posting already in the report commodity is never converted) and
+   F19 (last-price takes every entry, also one stamped at Timestamp::MAX).
+   Specification: TkSpec.Price_spec, stated on the price FILE as written (any order of lines):
+   RateAt lk f target c t e  =  e is the line of f with base c, eq target, applicable instant
+   (txn-time: <= t, given-time: < given, last-price: any) and the maximal instant.
    convert_one lk txns target f t p = the posting p (of a transaction with instant t) as the reports
    receive it when the lookup is lk, the report commodity is target, the transaction set is txns and
-   the price file is f. *)
+   the price file is f.  distinct_keys f = the lines have distinct (instant, base, eq). *)
 From Coq Require Import Permutation Sorted.
 From TkModel Require Import Base Dec Acct Txn Price.
 From TkSpec Require Import Price_spec.
 From TkProofs Require Import Price_proofs.
 Local Open Scope Z_scope.
 
-(* a posting in a commodity with an applicable rate is valued at amount x THE rate (the latest
-   applicable line), in the report commodity; the rate is shown in txn-time mode.
-   file_ok = distinct (instant, base, eq) and, for last-price, every instant below Timestamp::MAX *)
+(* a posting in a commodity (other than the report commodity) with an applicable rate is valued at
+   amount x THE rate (the latest applicable line), in the report commodity; the rate is shown in
+   txn-time mode.  All three lookups; no bound on the instants. *)
 Theorem C07_rate : forall lk txns tgt f t p e,
-  file_ok lk f -> p_comm p <> [] -> In (p_comm p) (posting_comms txns) ->
+  distinct_keys f -> p_comm p <> [] -> p_comm p <> tgt -> In (p_comm p) (posting_comms txns) ->
   RateAt lk f tgt (p_comm p) t e ->
   convert_one lk txns tgt f t p = converted lk tgt p e.
 Proof. exact convert_rate. Qed.
@@ -26,16 +28,16 @@ Print Assumptions C07_rate.
 
 (* ... as exact values: (converted amount) = amount x rate, whenever the product is representable *)
 Theorem C07_rate_value : forall lk txns tgt f t p e,
-  file_ok lk f -> p_comm p <> [] -> In (p_comm p) (posting_comms txns) ->
+  distinct_keys f -> p_comm p <> [] -> p_comm p <> tgt -> In (p_comm p) (posting_comms txns) ->
   RateAt lk f tgt (p_comm p) t e -> (ds (p_amount p) + ds (pe_rate e) <= 28)%N ->
   d28 (cv_amount (convert_one lk txns tgt f t p)) * pow10 28 = d28 (p_amount p) * d28 (pe_rate e).
 Proof. exact convert_rate_value. Qed.
 Print Assumptions C07_rate_value.
 
-(* no commodity, commodity not used by the transaction set, or no applicable line: unchanged
-   (no hypothesis on the file: duplicates, any instants) *)
+(* no commodity, already the report commodity, commodity not used by the transaction set, or no
+   applicable line: unchanged (no hypothesis on the file: duplicates, self pairs, any instants) *)
 Theorem C07_unchanged : forall lk txns tgt f t p,
-  (p_comm p = [] \/ ~ In (p_comm p) (posting_comms txns) \/ NoRate lk f tgt (p_comm p) t) ->
+  (p_comm p = [] \/ p_comm p = tgt \/ ~ In (p_comm p) (posting_comms txns) \/ NoRate lk f tgt (p_comm p) t) ->
   convert_one lk txns tgt f t p = unconverted p.
 Proof. exact convert_unchanged. Qed.
 Print Assumptions C07_unchanged.
@@ -47,44 +49,53 @@ Theorem C07_inactive : forall lk txns target db tx,
 Proof. exact no_conversion. Qed.
 Print Assumptions C07_inactive.
 
-(* a posting already in the report commodity is unchanged — PROVIDED the file has no self pair *)
+(* a posting already in the report commodity is unchanged — for EVERY price file (F12 fixed) *)
 Theorem C07_target_unchanged : forall lk txns tgt f t p,
-  no_self_pair tgt f -> p_comm p = tgt -> convert_one lk txns tgt f t p = unconverted p.
+  p_comm p = tgt -> convert_one lk txns tgt f t p = unconverted p.
 Proof. exact convert_target_unchanged. Qed.
 Print Assumptions C07_target_unchanged.
-
-(* ... and the hypothesis is needed (finding F12): `P .. EUR 2 EUR` doubles EUR postings *)
-Theorem C07_target_unchanged_refuted :
-  exists lk txns tgt f t p,
-    file_ok lk f /\ In (p_comm p) (posting_comms txns) /\ p_comm p = tgt /\
-    convert_one lk txns tgt f t p <> unconverted p.
-Proof. exact target_unchanged_refuted. Qed.
-Print Assumptions C07_target_unchanged_refuted.
-
-(* the hypothesis `below Timestamp::MAX` of file_ok is needed for last-price: a line stamped
-   9999-12-30T22:00:00.999999999Z is the latest line but is never applied *)
-Theorem C07_last_price_refuted :
-  exists txns tgt f t p e,
-    distinct_keys f /\ In (p_comm p) (posting_comms txns) /\ p_comm p <> [] /\
-    RateAt LkLastPrice f tgt (p_comm p) t e /\
-    convert_one LkLastPrice txns tgt f t p <> converted LkLastPrice tgt p e.
-Proof. exact last_price_max_refuted. Qed.
-Print Assumptions C07_last_price_refuted.
 
 (* only lines with base = the posting's commodity and eq = the report commodity can influence the
    result: inverse (EUR->USD) and chained (ACME->USD, USD->EUR) lines are never used *)
 Theorem C07_no_invention : forall lk txns tgt f t p,
-  file_ok lk f ->
+  distinct_keys f ->
   convert_one lk txns tgt f t p = convert_one lk txns tgt (filter (relevant tgt (p_comm p)) f) t p.
 Proof. exact convert_no_invention. Qed.
 Print Assumptions C07_no_invention.
 
-(* the metadata records: one per used commodity that has a usable line, ascending; in the fixed modes
-   each shows instant and rate (same value) of THE rate (RateAt) of its commodity, i.e. by C07_rate the one applied *)
+(* the metadata records = the cache entries: one per commodity used by the transaction set that has a
+   usable line into the report commodity, ascending; in the fixed modes each shows instant and rate
+   (same value) of THE rate (RateAt) of its commodity *)
 Theorem C07_metadata : forall lk txns tgt f,
-  file_ok lk f -> MetaSpec lk tgt f txns (metadata (make_ctx lk txns (Some tgt) (load_db f))).
+  distinct_keys f -> MetaSpec lk tgt f txns (metadata (make_ctx lk txns (Some tgt) (load_db f))).
 Proof. exact metadata_spec. Qed.
 Print Assumptions C07_metadata.
+
+(* "the rates shown are the ones applied": every listed record whose source is not the report
+   commodity itself is applied to every posting of the set in that commodity ... *)
+Theorem C07_metadata_applied : forall lk txns tgt f r,
+  distinct_keys f -> is_fixed lk ->
+  In r (metadata (make_ctx lk txns (Some tgt) (load_db f))) -> pr_source r <> tgt ->
+  RecordApplied lk txns tgt f r.
+Proof. exact metadata_applied. Qed.
+Print Assumptions C07_metadata_applied.
+
+(* ... hence every listed record, PROVIDED the file has no self pair of the report commodity *)
+Theorem C07_metadata_all_applied : forall lk txns tgt f r,
+  distinct_keys f -> is_fixed lk -> no_self_pair tgt f ->
+  In r (metadata (make_ctx lk txns (Some tgt) (load_db f))) ->
+  RecordApplied lk txns tgt f r.
+Proof. exact metadata_all_applied. Qed.
+Print Assumptions C07_metadata_all_applied.
+
+(* the hypothesis is needed (residual of F12): with `P .. EUR 2 EUR` the record EUR -> EUR, rate 2, is
+   still listed in the metadata although no posting is valued with it *)
+Theorem C07_metadata_all_applied_refuted :
+  exists lk txns tgt f r,
+    distinct_keys f /\ is_fixed lk /\
+    In r (metadata (make_ctx lk txns (Some tgt) (load_db f))) /\ ~ RecordApplied lk txns tgt f r.
+Proof. exact metadata_applied_refuted. Qed.
+Print Assumptions C07_metadata_all_applied_refuted.
 
 (* the order of the lines of the price file is irrelevant *)
 Theorem C07_file_order : forall lk target f f' txns,
@@ -95,9 +106,10 @@ Theorem C07_file_order : forall lk target f f' txns,
 Proof. exact price_run_file_order. Qed.
 Print Assumptions C07_file_order.
 
-(* the function the reports call, on every transaction of the set, meets the specification *)
+(* the function the reports call, on every transaction of the set, meets the specification
+   (full strength: no hypothesis besides distinct keys) *)
 Theorem C07_model_meets_spec : forall lk txns tgt f tx,
-  file_ok lk f -> no_self_pair tgt f -> In tx txns ->
+  distinct_keys f -> In tx txns ->
   Forall2 (PostSpec lk tgt f (h_inst (t_hdr tx))) (t_posts tx)
           (convert_prices (make_ctx lk txns (Some tgt) (load_db f)) tx).
 Proof. exact model_meets_spec. Qed.
@@ -116,9 +128,9 @@ Proof. exact meta_ok_b_sound. Qed.
 Print Assumptions C07_meta_oracle_sound.
 
 (* non-vacuity: a shuffled file with inverse and chained pairs satisfies the hypotheses; the three
-   lookups give three different valuations *)
+   lookups give three different valuations; the inputs of the fixed findings F12 and F19 *)
 Example C07_example :
-  (forall lk, file_ok lk ex_file) /\ no_self_pair EUR ex_file /\
+  distinct_keys ex_file /\ no_self_pair EUR ex_file /\
   ex_show (price_run LkTxnTime (Some EUR) ex_file ex_txns)
   = [ [ (ACME, 2, 0%N, None); (EUR, -6, 0%N, None) ];
       [ (EUR, 650, 2%N, Some (325, 2%N)); (EUR, 90, 1%N, Some (9, 1%N)); ([], 5, 0%N, None); (EUR, -1, 1%N, None) ] ] /\
@@ -130,5 +142,9 @@ Example C07_example :
       [ (EUR, 70, 1%N, None); (EUR, 90, 1%N, None); ([], 5, 0%N, None); (EUR, -1, 1%N, None) ] ] /\
   map (fun r => (pr_source r, pr_used r)) (metadata (make_ctx LkLastPrice ex_txns (Some EUR) (load_db ex_file)))
   = [ (ACME, Some (300, mkDec 35 1)); (USD, Some (100, mkDec 9 1)) ] /\
-  RateAt LkTxnTime ex_file EUR ACME 200 (mkPE 200 ACME (mkDec 325 2) EUR).
+  RateAt LkTxnTime ex_file EUR ACME 200 (mkPE 200 ACME (mkDec 325 2) EUR) /\
+  ex_show (price_run LkTxnTime (Some EUR) f12_file f12_txns)
+  = [ [ (EUR, 1, 0%N, None); (EUR, -1, 0%N, None) ]; [ (EUR, 3, 0%N, Some (3, 0%N)); (EUR, -3, 0%N, None) ] ] /\
+  ex_show (price_run LkLastPrice (Some EUR) tsmax_file tsmax_txns)
+  = [ [ (EUR, 7, 0%N, None); (EUR, -7, 0%N, None) ] ].
 Proof. exact price_example. Qed.
